@@ -423,7 +423,6 @@ def e_series_fillna(c):
     import static_frame as sf
     o = Obs([c.a.dtype, c.e])
     o.arr(sf.Series(c.a, index=IDX).fillna(c.e).values, _fill_expect(c.a, c.e), 'fillna')
-    o.arr(sf.Series(c.a, index=IDX).fillna_leading(c.e).values, [c.e if (m and all(with_missing(c.a)[:i + 1])) else x for i, (x, m) in enumerate(zip(elems(c.a), with_missing(c.a)))], 'fillna_leading')
     return o
 
 
@@ -435,33 +434,34 @@ def e_frame_fillna(c):
     return o
 
 
+def _sided_expect(cols, e, axis, leading):
+    """cols: list of element lists (one per column); the missing run at the chosen edge of every column (axis 0) / row (axis 1) becomes e"""
+    n, m = len(cols[0]), len(cols)
+    out = [list(col) for col in cols]
+    lines = [[(i, j) for i in range(n)] for j in range(m)] if axis == 0 else [[(i, j) for j in range(m)] for i in range(n)]
+    for line in lines:
+        for (i, j) in (line if leading else line[::-1]):
+            if not is_missing(cols[j][i]):
+                break
+            out[j][i] = e
+    return out
+
+
 def e_frame_fillna_sided(c):
+    # rotate a so that its missing value (position 1 in every sample array) sits at an edge: x ends with it, x2 (reversed) starts with it
+    ar = np.roll(c.a, 1)
+    cols = [elems(ar), elems(ar[::-1]), elems(Y), elems(Z)]
     o = Obs([c.a.dtype, c.e])
-    a = c.a
-    m = with_missing(a)
-    # trailing along axis 0 on x2 (= reversed a): the trailing run of x2 is the leading run of a
-    f = mk_frame(a, c.lay).fillna_trailing(c.e, axis=0)
-    A2, m2 = elems(a[::-1]), m[::-1]
-    exp2, run = [], True
-    for x, mm in reversed(list(zip(A2, m2))):
-        run = run and mm
-        exp2.append(c.e if run else x)
-    o.arr(fcol(f, 1), exp2[::-1], 'fillna_trailing(axis=0):x2')
-    A = elems(a)
-    exp, run = [], True
-    for x, mm in reversed(list(zip(A, m))):
-        run = run and mm
-        exp.append(c.e if run else x)
-    o.arr(fcol(f, 0), exp[::-1], 'fillna_trailing(axis=0):x')
-    o.dtype(fcol(f, 2).dtype, Y.dtype, 'column y').dtype(fcol(f, 3).dtype, Z.dtype, 'column z')
-    # leading along axis 1: row i is filled from the left while x, x2 are missing (y is never missing)
-    f = mk_frame(a, c.lay).fillna_leading(c.e, axis=1)
-    ex, ex2 = [], []
-    for i in range(3):
-        ex.append(c.e if m[i] else A[i])
-        ex2.append(c.e if (m[i] and m2[i]) else A2[i])
-    o.arr(fcol(f, 0), ex, 'fillna_leading(axis=1):x').arr(fcol(f, 1), ex2, 'fillna_leading(axis=1):x2')
-    o.dtype(fcol(f, 2).dtype, Y.dtype, 'column y').dtype(fcol(f, 3).dtype, Z.dtype, 'column z')
+    for name, axis, leading in (('fillna_trailing', 0, False), ('fillna_leading', 0, True), ('fillna_leading', 1, True), ('fillna_trailing', 1, False)):
+        f = getattr(mk_frame(ar, c.lay), name)(c.e, axis=axis)
+        exp = _sided_expect(cols, c.e, axis, leading)
+        for j, cname in enumerate(('x', 'x2', 'y', 'z')):
+            o.arr(fcol(f, j), exp[j], f'{name}(axis={axis}):{cname}')
+        o.dtype(fcol(f, 2).dtype, Y.dtype, 'column y').dtype(fcol(f, 3).dtype, Z.dtype, 'column z')
+    import static_frame as sf
+    s = sf.Series(ar, index=IDX)
+    o.arr(s.fillna_trailing(c.e).values, _sided_expect([elems(ar)], c.e, 0, False)[0], 'Series.fillna_trailing')
+    o.arr(sf.Series(ar[::-1].copy(), index=IDX).fillna_leading(c.e).values, _sided_expect([elems(ar[::-1])], c.e, 0, True)[0], 'Series.fillna_leading')
     return o
 
 
@@ -527,7 +527,7 @@ ELEMENT_OPS = {
     'Frame.assign.bloc(element)': (e_frame_assign_bloc, True, False),
     'Series.fillna(element)': (e_series_fillna, False, False),
     'Frame.fillna(element)': (e_frame_fillna, True, False),
-    'Frame.fillna_leading/trailing(element)': (e_frame_fillna_sided, True, False),
+    'fillna_leading/trailing(element)': (e_frame_fillna_sided, True, False),
     'Index.fillna(element)': (e_index_fillna, False, False),
     'full_for_fill': (e_full_for_fill, False, True),
     'Frame.from_concat(axis=1, fill_value)': (e_concat_fill, False, True),
@@ -681,6 +681,32 @@ def r_roll(c):
     s = sf.Series(c.a, index=IDX).roll(-1)
     A = elems(c.a)
     o.dtype(s.values.dtype, c.a.dtype, 'Series.roll').arr(s.values, [A[1], A[2], A[0]], 'Series.roll(-1)')
+    return o
+
+
+def r_fillna_directional(c):
+    """forward / backward fill along axis 1 carries a value of one column into the next (different dtype)"""
+    o = Obs([c.a.dtype, c.b.dtype, Y.dtype])
+    arrays = [c.b, c.a, Y, c.a[::-1].copy(), c.b]
+    cols = [elems(x) for x in arrays]
+    lay = tuple((1, True) for _ in arrays)
+    f0 = frame_from(arrays, lay, index=IDX, column_labels=['w', 'x', 'y', 'x2', 'w2'])
+    for name, forward in (('fillna_forward', True), ('fillna_backward', False)):
+        f = getattr(f0, name)(axis=1)
+        exp = [list(col) for col in cols]
+        for i in range(3):
+            last, have = None, False
+            order = range(len(cols)) if forward else range(len(cols) - 1, -1, -1)
+            for j in order:
+                if is_missing(cols[j][i]):
+                    if have:
+                        exp[j][i] = last
+                else:
+                    last, have = cols[j][i], True
+        for j in range(len(cols)):
+            o.arr(fcol(f, j), exp[j], f'{name}(axis=1) column {j}')
+        ycol = fcol(f, 2)
+        o.dtype(ycol.dtype, Y.dtype, 'column y')
     return o
 
 
@@ -891,6 +917,7 @@ ARRAY_OPS = {
     'Frame.assign.loc(Series/Frame)': (r_frame_assign_container, True),
     'Frame.assign.bloc(array/Frame)': (r_frame_assign_bloc_array, True),
     'Frame.roll/Series.roll': (r_roll, False),
+    'Frame.fillna_forward/backward(axis=1)': (r_fillna_directional, False),
     'Series.fillna(Series)': (r_series_fillna_series, False),
     'Frame.fillna(Frame)': (r_frame_fillna_frame, True),
     'Series.from_overlay': (r_series_overlay, False),
@@ -949,7 +976,7 @@ def attribute(opname, cls, obs, stored, supplied):
                 for g, s_ in zip(list(arr), elements):
                     pc = compare(g, s_)
                     if pc is not None and normalize(s_)[0] == cs:
-                        return f'C07:prepare_iter_for_array:{_build_group(pc, cs, normalize(g)[0])}'
+                        return f'C07:prepare_iter_for_array:{_build_group(pc, cs, normalize(g)[0], s_, elements)}'
         except Exception:
             pass
     if cls == 'int-to-float-inexact':
@@ -968,12 +995,14 @@ def attribute(opname, cls, obs, stored, supplied):
     return f'C07:{site}:{cls}'
 
 
-def _build_group(cls, supplied_class, stored_class):
+def _build_group(cls, supplied_class, stored_class, lost, elements):
     """defect classes of array building from mixed Python/NumPy scalars, grouped by the missing guard"""
     if stored_class in ('bytes', 'str'):
         return f'non-{stored_class}-element-cast-to-{stored_class}'
     if cls == 'int-to-float-inexact':
-        return 'big-int-with-float-or-mixed-sign-cast-to-float'
+        form = 'python-int' if type(lost) is int else 'numpy-int'
+        company = 'with-inexact' if any(normalize(x)[0] in ('float', 'complex') for x in elements) else 'among-ints-only'
+        return f'big-{form}-{company}-cast-to-float'
     if supplied_class == 'bool':
         return 'bool-cast-to-number'
     if 'datetime' in (supplied_class, stored_class) or 'timedelta' in (supplied_class, stored_class):
